@@ -205,6 +205,9 @@ def check_depth_accounting(ctx, prog, tag):
     for f, bb, w, pl in query.field_accessors(prog, CTX, "outer_stack_depth"):
         if w:
             writers.setdefault(f.path, []).append((f, bb))
+    if not query.field_accessors(prog, CTX, "outer_stack_depth"):
+        ctx.count("configs without an inherited depth counter (no macros / multi_template)")
+        return
     ctx.floor("C11.R6 writers of the inherited depth counter" + tag, len(writers), 2)
     absolute = []
     for path, sites in sorted(writers.items()):
